@@ -7,6 +7,7 @@ import (
 	"math"
 	"strconv"
 	"sync"
+	"sync/atomic"
 	"time"
 
 	"github.com/b2broker/simplefix-go/fix/encoding"
@@ -582,8 +583,12 @@ func (s *Session) start() error {
 	}
 	s.timersMu.Unlock()
 
+	// silent periods counted by the test-request timer while the session is not logged on
+	var silentPeriods int32
+
 	s.Router.HandleIncoming(simplefixgo.AllMsgTypes, func(msg []byte) bool {
 		incomingMsgTimer.Refresh()
+		atomic.StoreInt32(&silentPeriods, 0)
 		if s.currentState() == WaitingTestReqAnswer {
 			s.changeState(SuccessfulLogged, false)
 		}
@@ -612,6 +617,18 @@ func (s *Session) start() error {
 			if s.currentState() == WaitingTestReqAnswer {
 				s.changeState(Disconnect, true)
 				return
+			}
+
+			// Not logged on (a Logout is pending or has completed): the peer is not probed and the
+			// state is left alone, so that a late Logout answer is still recognised and nothing
+			// but a Logon logs the peer on again. A second silent period ends the connection as before.
+			if s.currentState() != SuccessfulLogged {
+				if atomic.AddInt32(&silentPeriods, 1) > 1 {
+					s.changeState(Disconnect, true)
+					return
+				}
+
+				continue
 			}
 
 			testRequest := s.MessageBuilders.TestRequestBuilder.Build()
